@@ -56,8 +56,26 @@ NewReq == /\ nreq < MaxReq
           /\ nreq' = nreq + 1
           /\ UNCHANGED cfg
 
-Reply == /\ \E t \in live, k \in Kinds :
-              h' = Append(h, [op |-> "reply", tx |-> Tx(t), kind |-> k])
+(* composite reply kinds: a base kind plus a modifier understood by the harness *)
+KindStep(t, k) ==
+  LET b == [op |-> "reply", tx |-> Tx(t)] IN
+  CASE k = "wrongid" -> b @@ [kind |-> "ok", wrongid |-> 1]
+    [] k = "wrongname" -> b @@ [kind |-> "ok", wrongname |-> 1]
+    [] k = "wrongtype" -> b @@ [kind |-> "ok", wrongtype |-> 1]
+    [] k = "wrongaddr" -> b @@ [kind |-> "ok", wrongaddr |-> 1]
+    [] k = "flipcase" -> b @@ [kind |-> "ok", flipcase |-> 1]
+    [] k = "formerr_noopt" -> b @@ [kind |-> "formerr", noopt |-> 1]
+    [] k = "nx_nosoa" -> b @@ [kind |-> "nx", soa |-> 0]
+    [] k = "ok_ttl0" -> b @@ [kind |-> "ok", ttl |-> 0]
+    [] k = "ok_ttl5" -> b @@ [kind |-> "ok", ttl |-> 5]
+    [] k = "ok_srvcookie" -> b @@ [kind |-> "ok", cookie |-> "srv:S1"]
+    [] k = "ok_srvcookie2" -> b @@ [kind |-> "ok", cookie |-> "srv:S2"]
+    [] k = "ok_nocookie" -> b @@ [kind |-> "ok", cookie |-> "none"]
+    [] k = "ok_wrongclient" -> b @@ [kind |-> "ok", cookie |-> "wrongclient:S9"]
+    [] k = "badcookie_srv" -> b @@ [kind |-> "badcookie", cookie |-> "srv:S3"]
+    [] OTHER -> b @@ [kind |-> k]
+
+Reply == /\ \E t \in live, k \in Kinds : h' = Append(h, KindStep(t, k))
          /\ UNCHANGED <<cfg, nreq, live>>
 
 Timeout == /\ "timeout" \in Extras /\ live # {}
@@ -74,16 +92,21 @@ Fault == /\ LastOp # "failnext"
          /\ \E f \in Faults : h' = Append(h, [op |-> "failnext", what |-> f, errno |-> 111])
          /\ UNCHANGED <<cfg, nreq, live>>
 
-SetServers == /\ "setservers" \in Extras /\ live # {}
-              /\ \E csv \in {"10.0.0.2", "10.0.0.1,10.0.0.2,10.0.0.3"} : h' = Append(h, [op |-> "setservers", csv |-> csv])
+SetServers == /\ "setservers" \in Extras
+              /\ \E csv \in {"10.0.0.2", "10.0.0.1", "10.0.0.2,10.0.0.1", "10.0.0.3,10.0.0.1,10.0.0.2"} : h' = Append(h, [op |-> "setservers", csv |-> csv])
               /\ UNCHANGED <<cfg, nreq, live>>
 
 Process == /\ "process" \in Extras /\ live # {}
            /\ h' = Append(h, [op |-> "process", r |-> "all", w |-> "all"])
            /\ UNCHANGED <<cfg, nreq, live>>
 
+(* let some virtual time pass without reaching a deadline (gives replies a latency) *)
+Tick == /\ "tick" \in Extras /\ live # {} /\ LastOp # "adv"
+        /\ h' = Append(h, [op |-> "adv", ms |-> 120])
+        /\ UNCHANGED <<cfg, nreq, live>>
+
 GNext == /\ Len(h) < MaxLen
-         /\ (NewReq \/ Reply \/ Timeout \/ Cancel \/ Fault \/ SetServers \/ Process)
+         /\ (NewReq \/ Reply \/ Timeout \/ Cancel \/ Fault \/ SetServers \/ Process \/ Tick)
 
 GSpec == GInit /\ [][GNext]_gvars
 
